@@ -1,17 +1,19 @@
 (* C10 — property theorems.  Nothing but statements, `exact`, Print Assumptions. *)
 From FwdLib Require Import Bytes.
-From G09 Require Import Tables H2Relay Ledger Check Term Obligations Obligations10 FlowBasics PairBasics PairWin PairMisc
+From G09 Require Import Tables H2Relay Ledger Check Term Obligations Obligations10 FlowBasics PairBasics Lift PairWin PairMisc
   FifoProofs PairFifo NoStrand Spec Content Fidelity Misc10 Witness.
 Open Scope N_scope.
 
-(* Per-stream order: for every history, every endpoint x and every stream s, the frames released towards x
-   on s followed by the frames still held for x on s are exactly the frames queued for x on s, in the
-   order they were queued (DATA and zero-cost frames share the queue). *)
+(* Per-stream order: for every history in which no frame was refused, every endpoint x and every stream s,
+   the frames released towards x on s followed by the frames still held for x on s are exactly the frames
+   queued for x on s, in the order they were queued (DATA and zero-cost frames share the queue).  Frames
+   are compared without their chunks: a header frame's block is encoded when it is released. *)
 Theorem T10_fifo :
   forall (dstate estate : Type) dec enc dresize eresize (evs : list event) (d1 : dstate) (e1 : estate) d2 e2 x s,
     hist_wf evs ->
     let r := H2Relay.run dec enc dresize eresize (pair0 dstate estate d1 e1 d2 e2) evs in
-    on s (emitted_to x (snd r)) ++ queue_of (r_flow (toward x (fst r))) s = on s (enqueued_for x (snd r)).
+    all_ok (snd r) ->
+    map strip (on s (emitted_to x (snd r)) ++ queue_of (r_flow (toward x (fst r))) s) = map strip (on s (enqueued_for x (snd r))).
 Proof. exact fifo_from_start. Qed.
 Print Assumptions T10_fifo.
 
@@ -67,12 +69,11 @@ Theorem T10_conn_frames :
 Proof. exact conn_frames_run. Qed.
 Print Assumptions T10_conn_frames.
 
-(* SETTINGS_HEADER_TABLE_SIZE of endpoint x bounds the encoder of the relay sending to x; the relay reading
-   from x is not touched. *)
+(* SETTINGS_HEADER_TABLE_SIZE of endpoint x bounds the encoder of the relay sending to x, and no other encoder. *)
 Theorem T10_table_size :
   forall (dstate estate : Type) dec enc dresize eresize (p : pair dstate estate) from v orders,
     r_est (toward from (s_pair (pstep dec enc dresize eresize p from (RSettings false [(1, v)]) orders))) = eresize (r_est (toward from p)) v /\
-    toward (other from) (s_pair (pstep dec enc dresize eresize p from (RSettings false [(1, v)]) orders)) = toward (other from) p.
+    r_est (toward (other from) (s_pair (pstep dec enc dresize eresize p from (RSettings false [(1, v)]) orders))) = r_est (toward (other from) p).
 Proof. exact table_size_step. Qed.
 Print Assumptions T10_table_size.
 
@@ -92,6 +93,21 @@ Theorem T10_chunks_lossless : forall first cmax data ch,
   split_chunks first cmax data = Some ch -> concat ch = data /\ ch <> [].
 Proof. exact split_chunks_concat. Qed.
 Print Assumptions T10_chunks_lossless.
+
+(* HPACK is stateful: the receiver can only decode header blocks in the order the relay's encoder produced
+   them.  Whatever one relay writes during a step - frames of any streams released in any order, encoder
+   resizes in between - the header blocks on the wire, in wire order, are exactly the successive outputs of
+   its encoder (ob_hpack_at_release: the source encodes in emitEligibleFrames, when a frame enters the
+   output channel; the unrepaired code encoded when a frame was queued, and a block queued behind blocked
+   DATA was overtaken by later blocks of other streams). *)
+Theorem T10_blocks_in_encoding_order :
+  forall (estate : Type) enc eresize (l : list oframe) (est : estate) maxp l' est',
+    hpack_at_release = true ->
+    run_script enc eresize est maxp l = Some (l', est') -> blocks l' = enc_trace estate enc eresize est l.
+Proof. exact (fun E enc er l est maxp l' est' _ => blocks_in_encoding_order E enc er l est maxp l' est'). Qed.
+Print Assumptions T10_blocks_in_encoding_order.
+Theorem T10_source_encodes_at_release : hpack_at_release = true.
+Proof. exact ob_hpack_at_release. Qed.
 
 (* The client preface is forwarded whatever way the transport cuts the client's first bytes into reads. *)
 Theorem T10_preface_any_segmentation : forall reads tail, concat reads = connection_preface ++ tail ->
